@@ -169,11 +169,6 @@ func (r FileReplacer) Replace(d data.Data, cl Changelog) (*ast.File, error) {
 		file.Name.Name = r.Package
 	}
 
-	newImports, err := r.Imports.Replace(d, cl, file)
-	if err != nil {
-		return nil, err
-	}
-
 	// Matches were recorded in pre-order: a match precedes the matches
 	// nested inside it. Replace in reverse, innermost first, so that a match
 	// that sits directly in the statement list of another match (say, a bare
@@ -205,6 +200,14 @@ func (r FileReplacer) Replace(d data.Data, cl Changelog) (*ast.File, error) {
 		if give.Type().AssignableTo(v.Type()) {
 			v.Set(give)
 		}
+	}
+
+	// Imports are added only now. A match of a top-level declaration is
+	// recorded by its index in file.Decls, and adding the file's first import
+	// inserts a new declaration in front of all others.
+	newImports, err := r.Imports.Replace(d, cl, file)
+	if err != nil {
+		return nil, err
 	}
 
 	err = r.Imports.Cleanup(d, file, newImports)
